@@ -26,10 +26,11 @@ type asConfig struct {
 	LaunchFail []string          `json:"launchFail"`
 	HookFail   []string          `json:"hookFail"` // [actor, hook]
 	// the following are used by random / directed scenarios only (not part of the TLC model)
-	HookFailMode string              `json:"hookFailMode,omitempty"` // "" = the hook returns an error, "panic" = it panics
-	KilledFail   []string            `json:"killedFail,omitempty"`   // actors whose behaviour fails on a child's OnKilled notification
-	LateSpawn    []string            `json:"lateSpawn,omitempty"`    // actors that spawn one more child when a child dies while they are being killed
-	DecisionSeq  map[string][]string `json:"decisionSeq,omitempty"`  // supervisor -> decision per consultation (the last one repeats)
+	HookFailMode       string              `json:"hookFailMode,omitempty"`       // "" = the hook returns an error, "panic" = it panics
+	KilledFail         []string            `json:"killedFail,omitempty"`         // actors whose behaviour fails on a child's OnKilled notification
+	LateSpawn          []string            `json:"lateSpawn,omitempty"`          // actors that spawn one more child when a child dies while they are being killed
+	DecisionSeq        map[string][]string `json:"decisionSeq,omitempty"`        // supervisor -> decision per consultation (the last one repeats)
+	SpawnPrelaunchFail []string            `json:"spawnPrelaunchFail,omitempty"` // children whose OnPrelaunch fails at the initial spawn
 }
 
 type asScenario struct {
@@ -131,6 +132,9 @@ type scriptActor struct {
 	inst     int
 	gotKill  bool // this instance has received OnKill
 	lateDone bool
+	handling int   // depth of the behaviour that is handling the current message
+	depth    int   // label of the last behaviour this instance pushed
+	bstack   []int // labels of the behaviours this instance believes are stacked above OnReceive
 }
 
 func (a *scriptActor) has(list []string) bool {
@@ -152,7 +156,12 @@ func (a *scriptActor) OnPrelaunch(ctx vivid.PrelaunchContext) error {
 	r := a.x.restarts[a.name]
 	a.x.mu.Unlock()
 	if r == 0 {
-		return nil // the initial spawn always succeeds (prelaunch failure at spawn time is a separate scenario)
+		if a.has(a.x.sc.Cfg.SpawnPrelaunchFail) {
+			// by returning an error only: a panic in OnPrelaunch at spawn time is not recovered by the library and
+			// surfaces in the caller of ActorOf (the statement speaks of failure, i.e. the error return)
+			return errors.New("prelaunch failed at spawn")
+		}
+		return nil
 	}
 	ok := !a.hookFails("prelaunch")
 	a.x.ev(map[string]any{"e": "Hook", "a": a.name, "k": "prelaunch", "v": b2i(ok)})
@@ -217,8 +226,17 @@ func (a *scriptActor) spawnChildren(ctx vivid.ActorContext) {
 	}
 }
 
-func (a *scriptActor) OnReceive(ctx vivid.ActorContext) {
+func (a *scriptActor) OnReceive(ctx vivid.ActorContext) { a.handle(ctx, 0) }
+
+// pushed returns the behaviour the script pushes with Become: the same script, but it knows at which depth of the
+// behaviour stack it was pushed (and which instance pushed it)
+func (a *scriptActor) pushed(depth int) vivid.Behavior {
+	return func(ctx vivid.ActorContext) { a.handle(ctx, depth) }
+}
+
+func (a *scriptActor) handle(ctx vivid.ActorContext, depth int) {
 	x := a.x
+	a.handling = depth
 	switch m := ctx.Message().(type) {
 	case *vivid.OnLaunch:
 		x.ev(map[string]any{"e": "Deliv", "a": a.name, "k": "launch", "i": a.inst})
@@ -253,7 +271,7 @@ func (a *scriptActor) OnReceive(ctx vivid.ActorContext) {
 			}
 		}
 	case umsg:
-		x.ev(map[string]any{"e": "Deliv", "a": a.name, "k": "user", "m": m.ID, "i": a.inst, "s": m.Op})
+		x.ev(map[string]any{"e": "Deliv", "a": a.name, "k": "user", "m": m.ID, "i": a.inst, "s": m.Op, "n": depth})
 		a.doOp(ctx, m)
 	case evA:
 		x.ev(map[string]any{"e": "Deliv", "a": a.name, "k": "event", "m": m.ID, "i": a.inst, "s": "A"})
@@ -269,6 +287,29 @@ func (a *scriptActor) doOp(ctx vivid.ActorContext, m umsg) {
 	case "fail":
 		x.ev(map[string]any{"e": "Fail", "a": a.name, "k": "user", "m": m.ID})
 		ctx.Failed("user failure")
+	case "become", "become!":
+		// "become" stacks the new behaviour on top, "become!" discards what is below it; the event carries the label of
+		// the behaviour that must handle the next message
+		a.depth++ // labels are never re-used within one instance
+		if m.Op == "become!" {
+			a.bstack = []int{a.depth}
+		} else {
+			a.bstack = append(a.bstack, a.depth)
+		}
+		ctx.Become(a.pushed(a.depth), vivid.WithBehaviorDiscardOld(m.Op == "become!"))
+		x.ev(map[string]any{"e": "Become", "a": a.name, "n": a.depth})
+	case "unbecome", "unbecome!":
+		if m.Op == "unbecome!" || len(a.bstack) == 0 {
+			a.bstack = nil
+		} else {
+			a.bstack = a.bstack[:len(a.bstack)-1]
+		}
+		ctx.UnBecome(vivid.WithBehaviorDiscardOld(m.Op == "unbecome!"))
+		top := 0
+		if len(a.bstack) > 0 {
+			top = a.bstack[len(a.bstack)-1]
+		}
+		x.ev(map[string]any{"e": "Become", "a": a.name, "n": top})
 	case "stash":
 		ctx.Stash()
 		x.ev(map[string]any{"e": "Stashed", "a": a.name, "m": m.ID, "n": ctx.StashCount()})
@@ -795,6 +836,10 @@ func runActorScenario(sc *asScenario, schedule []asStep, seed int64, randomOps [
 	x.quiescent("probed")
 	// closing phase 2: released paths
 	for _, n := range names {
+		_, ferr := x.sys.FindActor("localhost" + x.pathOf(n))
+		x.ev(map[string]any{"e": "Find", "a": n, "v": b2i(ferr == nil)})
+	}
+	for _, n := range x.sc.Cfg.SpawnPrelaunchFail { // never existed: the path must not resolve
 		_, ferr := x.sys.FindActor("localhost" + x.pathOf(n))
 		x.ev(map[string]any{"e": "Find", "a": n, "v": b2i(ferr == nil)})
 	}
